@@ -17,7 +17,8 @@ ID = "C06"
 LEVEL = "proof"
 RULE = ("kinds: split (np.array_split grid, n > len included); uniq (select_unique_zipped_numpy_arrays on random rows with many "
         "duplicates); holder (scripts of new/add_score/concat/add_score/argmin incl. over-fill, partially filled holders, "
-        "eligibility masks, ties, -inf, through real save_h5/load_h5); chunk (single score_chunk calls incl. n_chunks <= 0, "
+        "eligibility masks, ties, -inf, through real save_h5/load_h5; get_score of present / absent / repeated / unfilled-slot ids before "
+        "and after a save+load cycle); chunk (single score_chunk calls incl. n_chunks <= 0, "
         "chunk_index out of range / negative, unknown and observed batch ids); pipeline (real Screen with 0-8 plates, any "
         "observation pattern incl. partly observed plates, duplicate conditions across plates, n_chunks 1-10, batches, recording "
         "stub scorer with prescribed scores / SizeScorer / RandomScorer, save_h5+load_h5, any combine order incl. repeats and "
@@ -31,6 +32,12 @@ THEOREMS = {
     "C06_model_is_source_combine": "the translation of ChunkedScoresHolder.combine equals the model h_combine: ALL slots of both concatenated, current_index += len(other.scores)",
     "C06_model_is_source_plate_id_with_minimum_score": "the translation of plate_id_with_minimum_score (None -> argmin over all slots; else isin mask, masked arrays, argmin, item) equals the model min_plate: id of the first slot of minimal score among the eligible ones, ValueError when none",
     "C06_model_is_source_concat": "the translation of ChunkedScoresHolder.concat (ValueError on [], left fold of combine) equals the model h_concat",
+    "C06_model_is_source_init": "the translation of ChunkedScoresHolder.__init__ (the four attribute stores, np.zeros for both arrays) regenerated from /repo's scoring/main.py on this run (Generated/SrcHolderIO.v) equals, whatever the fresh instance held, the object of the model's holder_new: `size` zero slots, current_index 0; ValueError for a negative size",
+    "C06_model_is_source_get_score": "the translation of ChunkedScoresHolder.get_score (`self.scores[self.plate_ids == plate_id].item()`) on the object of a model holder equals h_get_score: the score of the ONLY slot carrying that plate id, ValueError when none or several do (an unfilled slot carries id 0)",
+    "C06_model_is_source_save_h5": "the translation of the WHOLE method save_h5 denotes the raw HDF5 content it writes; read back by name (the representation map shraw_close) it is exactly the model's file h_save h: the dataset `scores` from self.scores, `plate_ids` from self.plate_ids, the attribute `current_index` from self.current_index",
+    "C06_model_is_source_load_h5": "the translation of the WHOLE classmethod load_h5 on every raw file that represents a model file f returns the object of the model's h_load f: which dataset is read into which local, cls(len(scores)) = the translated __init__, and which attribute of the new object receives which",
+    "C06_source_save_load": "hence C06_save_load holds of the translated source: the object the translated load_h5 makes of what the translated save_h5 wrote has the saved score array, plate-id array and current_index; its size is len(scores)",
+    "C06_source_get_score_after_reload": "and the translated get_score answers the same on the reloaded object as the model's h_get_score on the saved holder",
     "C06_array_split_concat": "np.array_split model: the n >= 1 sections concatenate to the list (also n > len)",
     "C06_array_split_sizes": "there are n sections; the first len mod n have len/n+1 elements, the others len/n",
     "C06_candidates_spec": "candidate ids are strictly ascending and are exactly the ids of screen plates that have an unobserved row and are not in the batch",
@@ -79,7 +86,22 @@ EXPLANATION = ("Tie to the code, two ways.  (1) Source-translation links: select
                "C06_ADD_SCORE, C06_COMBINE, C06_MIN_SCORE, C06_CONCAT; self.scores / self.plate_ids / self.current_index are state variables, the "
                "numpy arrays lists) with primitives a[i] = v (list_set, IndexError outside the array), np.concatenate((a, b)) = a ++ b, len, "
                "a.argmin() = position of the first minimum (ValueError on empty), a[i].item(), np.isin(a, l), a[mask] (boolean mask), l[0], l[1:], "
-               "x.combine(y) = h_combine inside concat; __init__, get_score, save_h5/load_h5 are not translated (correspondence only).  These primitives are the ones the correspondence below exercises (kinds split, uniq, holder, chunk, pipeline).  "
+               "x.combine(y) = h_combine inside concat.  __init__, get_score, save_h5 and load_h5 are translated as well (configurations C06_HOLDER_INIT / "
+               "_GET_SCORE / _SAVE / _LOAD, Generated/SrcHolderIO.v, proofs Proofs/C06SourceIO.v; vocabulary: last part of Model/Scores.v): there the "
+               "object is the record pyholder of its four attributes (typed fields: the attribute reads and stores come from the translation), a "
+               "float score is its order key (`list skey`, a type name distinct from the int array's `list Z`, so that an exchange of the two arrays "
+               "is refused), a model holder h is represented by holder_obj h, and the HDF5 file is the raw content shraw (datasets and attributes "
+               "by name, in creation order) with the explicit representation map shraw_close to the model's file (slots, current_index).  The "
+               "`with` blocks, the order and arguments of the h5py calls, the locals read inside the `with` and used after it, cls(len(scores)) = "
+               "the translated __init__ on a blank instance, and the three attribute stores of load_h5 come from the translation.  Trusted "
+               "primitives there, one numpy / h5py call each: np.zeros(n, dtype=FloatingPointType / int) = n zeros (the key of 0.0 is 0), "
+               "ValueError for a negative n; `a == v` elementwise; a[mask] = boolean-mask selection (IndexError on another length); a.item() = the "
+               "only element of an array of size 1, else ValueError; len(a); h5py.File(fn, 'w') = a new empty file, h5py.File(fn, 'r') = the "
+               "content handed in (entering / leaving the context changes nothing else); f.create_dataset('scores' / 'plate_ids', data=d) = append "
+               "the named 1-d float / int dataset, an existing name raises; f.attrs['current_index'] = v / f.attrs['current_index'] = set / read the "
+               "attribute (KeyError tag 30 when absent); f['scores'][:] / f['plate_ids'][:] = the stored array (KeyError tag 30 when absent, tag 32 "
+               "when of another kind).  The holder cases of the correspondence (what = 2: get_score before and after a save / load cycle) exercise "
+               "these on numpy / h5py.  These primitives are the ones the correspondence below exercises (kinds split, uniq, holder, chunk, pipeline).  "
                "(2) the differential correspondence.  "
                "Model: Model/Scores.v (screen rows, plates, candidates, np.array_split, first-occurrence unique, batch conditioning, "
                "ChunkedScoresHolder with zero-initialised slots, argmin over the eligibility mask, select_next_plate, whole pipeline). "
@@ -398,6 +420,21 @@ def gen(rng, tier):
         if pol == "rogue":
             d["rogue"] = rng.sample(range(max(1, npl)), min(max(1, npl), rng.randint(1, 2))) if npl else []
         yield d
+    # get_score on holder scripts (after everything else, so that the streams above are unchanged): distinct ids mostly,
+    # sometimes a repeated id, an absent id, the id 0 of an unfilled slot
+    for _ in range(80 if not big else 800):
+        hs = []
+        ids = rng.sample(range(0, 9), 8)
+        for _ in range(rng.choice([1, 1, 2, 3])):
+            size = rng.choice([0, 1, 2, 3])
+            k = rng.choice([size, size, max(0, size - 1)])
+            adds = []
+            for _ in range(k):
+                adds.append([ids.pop() if ids and rng.random() < 0.85 else rng.randint(0, 8), rng.choice(SCORES)])
+            hs.append([size, adds])
+        used = [i for _, a in hs for i, _ in a]
+        pid = rng.choice(used + used + [0, rng.randint(0, 9)]) if used else rng.randint(0, 3)
+        yield dict(kind="holder", holders=hs, post=[], eligible=[pid], what=2)
 
 
 # --------------------------------------------------------------------------- running
@@ -476,6 +513,15 @@ def run_holder(desc):
                 h.add_score(pid, sc)
             if desc["what"] == 0:
                 return holder_contents(h)
+            if desc["what"] == 2:      # get_score, before and after a save / load cycle of the combined holder
+                fn = os.path.join(d, "combined.h5")
+                h.save_h5(fn)
+                got = [impl_call(lambda hh=hh: float_key(hh.get_score(desc["eligible"][0]))) for hh in (h, ChunkedScoresHolder.load_h5(fn))]
+                if repr(got[0]) != repr(got[1]):
+                    raise AssertionError("get_score differs after save/load: %r / %r" % (got[0], got[1]))
+                if isinstance(got[0], ImplError):
+                    raise ValueError("get_score raised " + got[0].cls)
+                return got[0]
             return int(h.plate_id_with_minimum_score(desc["eligible"]))
         out = impl_call(go)
     finally:
@@ -484,13 +530,22 @@ def run_holder(desc):
     if isinstance(out, ImplError) and out.cls == "AssertionError":
         pred = "save_h5/load_h5 does not return the saved slots"
     exact = all(len(a) == s for s, a in desc["holders"]) and not desc["post"]
+    if desc["what"] == 2 and pred is None:
+        # the property's own reading of get_score: the score added for that plate id when exactly one slot carries it
+        slots = [(i, sc) for sz, a in desc["holders"] for i, sc in (a + [[0, 0.0]] * max(0, sz - len(a)))[:max(sz, 0)]]
+        mine = [sc for i, sc in slots if i == desc["eligible"][0]]
+        overfull = any(len(a) > sz for sz, a in desc["holders"])
+        if not overfull and len(mine) == 1 and (isinstance(out, ImplError) or out != float_key(mine[0])):
+            pred = "get_score does not return the score stored for the plate id"
+        if not overfull and len(mine) != 1 and not isinstance(out, ImplError):
+            pred = "get_score answered although no / several slots carry the plate id"
     if exact and desc["what"] == 1 and not isinstance(out, ImplError):
         slots = [x for _, a in desc["holders"] for x in a]
         el = desc["eligible"]
         ok = [(i, s) for i, s in slots if el is None or i in el]
         if not ok or out not in [i for i, _ in ok] or any(s < min(s2 for i2, s2 in ok if i2 == out) for _, s in ok):
             pred = "argmin over the eligibility mask is not an eligible plate of minimal score"
-    feats = ["holder", "argmin" if desc["what"] else "contents"] + (["exact-fill"] if exact else ["over/under-fill"]) \
+    feats = ["holder", {0: "contents", 1: "argmin", 2: "get_score"}[desc["what"]]] + (["exact-fill"] if exact else ["over/under-fill"]) \
         + (["mask"] if desc["eligible"] is not None else []) + (["raises"] if isinstance(out, ImplError) else []) \
         + (["-inf"] if any(sc == float("-inf") for _, a in desc["holders"] for _, sc in a) else []) \
         + (["trivial"] if sum(len(a) for _, a in desc["holders"]) < 2 else [])
